@@ -110,7 +110,9 @@ func c10Run(c c10Case, short int) error {
 				if n < 0 || n > op.N || o+n > L {
 					return fmt.Errorf("op %d: failing Write(%d bytes) at window position %d of %d reports n=%d", i, op.N, o, L, n)
 				}
-				dead = true
+				// the writer's position is the number of bytes it stored: a refused write that stored n bytes moves it by n,
+				// so later writes stay contiguous with what is in the image
+				_ = dead
 			}
 			copy(model[start+o:start+o+n], data[:n])
 			o += n
@@ -388,6 +390,6 @@ func TestC10(t *testing.T) {
 					ev.Class("multi-bank")
 				}
 			})
-			ev.Assumption("the writer's position after a failed write is unspecified: a writer is not used again after it reported an error")
+			ev.Assumption("after a write that reported an error and n stored bytes the writer continues at position+n (successive stored writes stay contiguous)")
 		})
 }
